@@ -4,6 +4,7 @@ usage: collect_seeded.py <prop> <n> <name> <eval json> [<eval json> ...]"""
 import json, os, re, shutil, sys
 V = os.path.dirname(os.path.dirname(os.path.abspath(__file__)))
 prop, n, name = sys.argv[1], sys.argv[2], sys.argv[3]
+ORIGIN = os.environ.get("ORIGIN", "independent sub-agent given only the property text and a scratch worktree")
 evals = [json.load(open(f)) for f in sys.argv[4:]]
 out = "/tmp/mut/out-%s" % prop.lower()
 if not os.path.isdir(out):
@@ -13,8 +14,8 @@ os.makedirs(d, exist_ok=True)
 shutil.copy(os.path.join(evals[0]["patch"]), os.path.join(d, "patch.diff"))
 src_out = os.path.dirname(evals[0]["patch"])
 for f in os.listdir(src_out):
-    if re.match(r"demo%s\.(c|sh|py)$" % n, f):
-        shutil.copy(os.path.join(src_out, f), os.path.join(d, f.replace("demo%s" % n, "demo")))
+    if re.match(r"demo%s([._-].*)?\.(c|sh|py)$" % n, f) and os.path.isfile(os.path.join(src_out, f)):      # demo1.sh, demo1_main.c, demo2-shortcut.sh ...
+        shutil.copy(os.path.join(src_out, f), os.path.join(d, f.replace("demo%s" % n, "demo", 1)))
 notes = ""
 np = os.path.join(src_out, "notes%s.txt" % n)
 if os.path.exists(np):
@@ -31,7 +32,7 @@ for e in evals:
 caught = sorted(k for k, v in checks.items() if v["exit"] == 1)
 meta = {
     "property": prop.upper(),
-    "origin": "independent sub-agent given only the property text and a scratch worktree",
+    "origin": ORIGIN,
     "what_it_needs_to_manifest": notes,
     "confirmed_in_scratch_worktree": confirm,
     "how_run": "patch applied to a scratch git worktree of /repo; project build + ctest; demonstration built against the changed and the unchanged library; then `VERIF_REPO=<worktree> VERIF_OUT=<scratch> bin/check <ID>` (same check code, rebuilding from that tree); patch undone afterwards",
